@@ -33,7 +33,7 @@ eval_variable = Fn(FEV, "eval_variable", slot="resolver", ret="res", key="eval_v
         C("err_is_loud", "res is Err ==> final(query).report.msgs() > old(query).report.msgs()", ["C03", "C15"]),
         C("a_reference_is_its_declarations_value", "res is Ok && !%s ==> %s is Some && res->Ok_0 == defs.symbols.defs@[(%s->0).0 as int]->0.value" % (PLAIN_BUILTIN.replace("query.", "old(query)."), TARGET, TARGET), ["C15"]),
         C("undeclared_name_is_an_error", "!%s && %s is None ==> res is Err" % (PLAIN_BUILTIN.replace("query.", "old(query)."), TARGET), ["C15"]),
-        C("unknown_value_when_guessing_is_forbidden_is_an_error", "res is Ok && !%s && !(ctx.is_first_iteration || !ctx.is_last_iteration) ==> !(res->Ok_0 is Unknown)" % PLAIN_BUILTIN.replace("query.", "old(query)."), ["C02"]),
+        C("unknown_value_when_guessing_is_forbidden_is_an_error", "res is Ok && !%s && ctx.is_last_iteration ==> !(res->Ok_0 is Unknown)" % PLAIN_BUILTIN.replace("query.", "old(query)."), ["C02"]),
     ],
 )
 
